@@ -5,7 +5,7 @@ import itertools
 
 from vmon import env, hooks
 from vmon.aromgen import (STANDARD, ANCHORED, EXOTIC, ALL_KINDS, standard_system, substituted_system,
-                          cage_system, CAGE_NAMES, pi_set)
+                          cage_system, CAGE_NAMES, pi_set, link_systems)
 from vmon.hooks import MON, call_guard
 from vmon.matching import exact_pm, judge_matching, is_bipartite
 from vmon.molgen import spell
@@ -43,7 +43,7 @@ def timeout(tier):
 def floors(tier):
     return {"M4.calls": 3000, "direct.calls": 20000, "standard.spellings": 1500, "standard.accepted": 300,
             "standard.rejected_ok": 100, "anchored.spellings": 800, "exotic.spellings": 500, "cage.spellings": 20,
-            "M4.nonbipartite": 100, "M4.bipartite": 1000, "direct.bipartite": 2000, "direct.matchable": 3000, "set:kinds": 30, "order_groups": 500}
+            "M4.nonbipartite": 100, "M4.bipartite": 1000, "direct.bipartite": 2000, "direct.matchable": 3000, "set:kinds": 30, "order_groups": 500, "linked.groups": 300}
 
 
 def ceilings(tier):
@@ -93,13 +93,14 @@ class Arom(object):
         outcomes = []
         any_nonbip_anomaly = False
         for v, k in enumerate(kind_of):
-            ctx.see("kinds", k)
+            if k:
+                ctx.see("kinds", k)
         for k in range(nspell):
             try:
                 s, order, _, _ = spell(m, rng, variants=rng.random() < 0.5, mix_labels=rng.random() < 0.2)
             except ValueError:
                 break
-            payload = {"smiles": s, "class": cls, "kinds": sorted(set(kind_of)), "src": src}
+            payload = {"smiles": s, "class": cls, "kinds": sorted(set(k_ for k_ in kind_of if k_)), "src": src}
             del MON.match_log[:]
             r = call_guard(lambda: sf.encoder(s, strict=False), expected=(sf.EncoderError,))
             log = list(MON.match_log)
@@ -111,7 +112,7 @@ class Arom(object):
                 ctx.finding("matching-wrong-not-blossom-related", dict(payload, graphs=[r_ for r_ in log if r_["verdict"] != "ok"][:2]),
                             "M4: find_perfect_matching answered wrongly on a bipartite graph, or with a symptom a missing blossom step cannot produce")
             ctx.count(cls + ".spellings")
-            nontrivial = len(arom_edges) > len(kind_of) or any(k_ != "c" for k_ in kind_of)
+            nontrivial = len(arom_edges) > len(kind_of) or any(k_ not in ("c", None) for k_ in kind_of)
             ctx.case(s, nontrivial, sample={"smiles": s, "class": cls, "accepted": r[0] == "ok"})
             try:
                 mi = read_smiles(s)
@@ -178,7 +179,7 @@ class Arom(object):
                     if dbl[a.idx] > 1:
                         err = "atom %d %s has %d double bonds on former aromatic bonds" % (a.idx, a.text, dbl[a.idx])
                     genv = order[a.idx]
-                    key = (kind_of[genv], len(adj[genv]))
+                    key = (kind_of[genv], len(adj[genv]), bool(a.bracket), a.hcount)   # the spelling class is part of the environment
                     self.exotic_env[key].add(dbl[a.idx])
                 else:
                     want = 1 if a.idx in Pw else 0
@@ -195,7 +196,7 @@ class Arom(object):
             acc = set(o[0] for o in outcomes)
             sets = set(o[1] for o in outcomes if o[0] is True and o[1] is not None)
             if len(acc) > 1 or len(sets) > 1:
-                p = {"smiles": s, "class": cls, "kinds": sorted(set(kind_of)), "outcomes": [str(o[0]) for o in outcomes]}
+                p = {"smiles": s, "class": cls, "kinds": sorted(set(k_ for k_ in kind_of if k_)), "outcomes": [str(o[0]) for o in outcomes]}
                 what = "acceptance" if len(acc) > 1 else "set of double-bonded atoms"
                 if any_nonbip_anomaly:
                     ctx.finding(F3, p, "%s differs between atom orders (M4: matching wrong on a non-bipartite graph)" % what)
@@ -304,6 +305,14 @@ def run(ctx):
         m, kind_of, ae = standard_system(rng, sizes=sizes, chords=0 if len(sizes) <= 3 else None,
                                          nrings=rng.choice([3, 4, 6, 8, 10]) if len(sizes) <= 3 else None)
         A.group(m, kind_of, ae, "standard", rng.choice([4, 4, 6, 8]), "G6-standard")
+    for i in range(60 if quick else 2000):
+        # biaryl / fluorene-type: ring systems joined by explicit single bonds between aromatic atoms, also as ring
+        # closures with '-' on one digit only; larger even rings so that the single bond COULD be double in a matching
+        parts = [standard_system(rng, nrings=rng.choice([1, 1, 2]), sizes=rng.choice([(5, 6, 6, 7), (6,), (6, 8), (4, 6, 8)]),
+                                 chords=0) for _ in range(rng.choice([2, 2, 3]))]
+        m, kind_of, ae = link_systems(rng, parts)
+        A.group(m, kind_of, ae, "standard", 4, "G6-linked")
+        ctx.count("linked.groups")
     for i in range(100 if quick else 3000):
         m, kind_of, ae, chosen = substituted_system(rng, ANCHORED)
         A.group(m, kind_of, ae, "anchored", 3, "G6-anchored")
